@@ -267,12 +267,12 @@ class ExecutionContext:
                     else:
                         return None
                 case LinearIR.OpCode.CALL:
-                    args = [
+                    callArgs = [
                         localScope[arg.Reference]
                         for arg in instruction.Arguments
                     ]
                     localScope[instruction.Reference] = self._Invoke(
-                        instruction.Function, args
+                        instruction.Function, callArgs
                     )
                 case LinearIR.OpCode.NEW_VARIABLE:
                     varType = instruction.Type
